@@ -29,7 +29,7 @@ func init() { register("c11", checkC11) }
 func checkC11(c *lib.Ctx) {
 	r := c.R
 	thorough := c.Tier == "thorough"
-	r.Rule = "sessions: INIT + PRNG mix of OPEN (r / w+creat / rw, existing and missing files, handler errors), OPENDIR (ok, missing, not a directory), READ/WRITE/FSTAT/FSETSTAT/READDIR on live handles, CLOSE, repeated CLOSE, CLOSE and other requests on never-issued handles (\"999\", \"\", \"abc\", …), use-after-close, path requests; flavours: small, 32 handles opened first, all closed at the end or left open; against os-backed Server (absolute paths / working directory) and RequestServer with counting handlers, allocator on and off. For each session the connection is ended after request index i (quick: first, last and a PRNG subset; thorough: every i) in 5 ways: EOF after the reply, EOF without reading the reply, EOF inside the next packet, transport error, transport error inside the next packet. Each case runs on a fresh server in a child process; non-trivial when at least one request follows INIT; distinct by (server config, session, cut index, mode, offset)"
+	r.Rule = "sessions: INIT + PRNG mix of OPEN (r / w+creat / rw, existing and missing files, handler errors), OPENDIR (ok, missing, not a directory), READ/WRITE/FSTAT/FSETSTAT/READDIR on live handles, CLOSE, repeated CLOSE, CLOSE and other requests on never-issued handles (\"999\", \"\", \"abc\", …), use-after-close, path requests; flavours: small, 32 handles opened first, all closed at the end or left open, and \"worn handle\" (per handle kind r/w/rw/dir: 32 sequential uses so that every pool worker has served it, 16 pipelined, CLOSE, then 16 sequential + 16 pipelined uses of the closed handle, second CLOSE, one more use, 4 pipelined CLOSEs); request-server flavours where 25 % (PRNG) or 100 % of the reader/writer/rw/lister objects fail their first Close; against os-backed Server (absolute paths / working directory) and RequestServer with counting handlers, allocator on and off. For each session the connection is ended after request index i (quick: first, last and a PRNG subset; thorough: every i) in 5 ways: EOF after the reply, EOF without reading the reply, EOF inside the next packet, transport error, transport error inside the next packet. Each case runs on a fresh server in a child process; non-trivial when at least one request follows INIT; distinct by (server config, session, cut index, mode, offset)"
 	base, err := ssMkBase(ssBaseRnd())
 	if err != nil {
 		r.Fail(lib.Failure{Kind: "tie", Key: "tmpdir", What: err.Error()})
@@ -56,10 +56,10 @@ func checkC11(c *lib.Ctx) {
 		return
 	}
 
-	nSmall, nMany, subset := 10, 3, 14
+	nSmall, nMany, nChurn, subset := 10, 3, 2, 14
 	midOffs := 1
 	if thorough {
-		nSmall, nMany, midOffs = 100, 20, 3
+		nSmall, nMany, nChurn, midOffs = 100, 20, 8, 3
 	}
 	var progs [][]ssStep
 	for i := 0; i < nSmall; i++ {
@@ -68,7 +68,13 @@ func checkC11(c *lib.Ctx) {
 	for i := 0; i < nMany; i++ {
 		progs = append(progs, ssGen(c.Rand, ssGenOpts{N: 24, Stale: true, Many: 32, CloseAll: i%2 == 0}))
 	}
-	cfgs := []ssCfg{{Kind: "os"}, {Kind: "os", Alloc: true}, {Kind: "rs"}, {Kind: "rs", Alloc: true}, {Kind: "os", WorkDir: true}, {Kind: "rs", WorkDir: true}}
+	for i := 0; i < nChurn; i++ {
+		progs = append(progs, ssGenChurn(c.Rand, i%2 == 0))
+	}
+	// close-error flavours: a quarter of the handler objects (PRNG per session run) / every object
+	// fails its first Close; the handle must die all the same and the object be closed exactly once
+	cfgs := []ssCfg{{Kind: "os"}, {Kind: "os", Alloc: true}, {Kind: "rs"}, {Kind: "rs", Alloc: true}, {Kind: "os", WorkDir: true}, {Kind: "rs", WorkDir: true},
+		{Kind: "rs", CloseErr: 25, CloseErrSeed: c.Rand.Uint32()}, {Kind: "rs", Alloc: true, CloseErr: 100}}
 	modes := []string{"eof", "noreply", "mid", "break", "breakmid"}
 	var jobs []*ssPJob
 	for _, p := range progs {
